@@ -1,0 +1,28 @@
+//go:build verif
+
+package hevc
+
+// Property C02 support (agent c02d): byte count of the HEVCDecoderConfigurationRecord encoder equals its Size().
+
+// adv(sw, d): if the writer has no accumulated error now, it had none at entry and has advanced by exactly d bytes since entry.
+//@ pred adv(sw bits.SliceWriter, d int) = sw.(*bits.FixedSliceWriter).accError == nil ==> old(sw.(*bits.FixedSliceWriter).accError) == nil && sw.(*bits.FixedSliceWriter).off == old(sw.(*bits.FixedSliceWriter).off) + d
+
+// naluSum(ns, n): bytes of the first n NAL units, each with a 2-byte length field.
+//@ spec rec naluSum(ns [][]byte, n int) int = ite(n <= 0, 0, naluSum(ns, n-1) + 2 + len(ns[n-1]))
+// arrSum(as, n): bytes of the first n NALU arrays (1 byte type, 2 bytes count, then the units).
+//@ spec rec arrSum(as []NaluArray, n int) int = ite(n <= 0, 0, arrSum(as, n-1) + 3 + naluSum(as[n-1].Nalus, len(as[n-1].Nalus)))
+
+//@ func (*DecConfRec).Size
+//@   requires h != nil
+//@   ensures result == uint64(23 + arrSum(h.NaluArrays, len(h.NaluArrays)))
+//@   assigns nothing
+//@   loop 1 invariant totalSize == 23 + arrSum(h.NaluArrays, idx(1))
+//@   loop 2 invariant totalSize == 23 + arrSum(h.NaluArrays, idx(1)) + 3 + naluSum(h.NaluArrays[idx(1)].Nalus, idx(2))
+
+//@ func (*DecConfRec).EncodeSW
+//@   requires h != nil
+//@   ensures swOKi(sw)
+//@   ensures[C02] result == nil ==> adv(sw, 23 + arrSum(h.NaluArrays, len(h.NaluArrays)))
+//@   assigns sw.(*bits.FixedSliceWriter).off, sw.(*bits.FixedSliceWriter).accError, sw.(*bits.FixedSliceWriter).n, sw.(*bits.FixedSliceWriter).v, sw.(*bits.FixedSliceWriter).buf[:]
+//@   loop 1 invariant adv(sw, 23 + arrSum(h.NaluArrays, idx(1)))
+//@   loop 2 invariant adv(sw, 23 + arrSum(h.NaluArrays, idx(1)) + 3 + naluSum(h.NaluArrays[idx(1)].Nalus, idx(2)))
